@@ -76,7 +76,7 @@ theorem c09_dead_never_ticks (cfg : Cfg) (s : State) (c : Nat)
 /-- A tick reports True exactly when the lifecycle is ACTIVE afterwards. -/
 theorem c09_tick_true_iff_active_after (cfg : Cfg) (s : State) (c : Nat) :
     ∃ b, (step cfg s (.tick c)).ret = .bool b ∧ (b = true ↔ (step cfg s (.tick c)).st.phase = .active) := by
-  obtain ⟨ph, len, errs, ops, ren, rsn, st0, la, now⟩ := s
+  obtain ⟨ph, len, errs, ops, ren, rsn, st0, la, now, evn⟩ := s
   cases ph <;> simp [step, tick, started, enterSenescence] <;> (repeat' split) <;> simp_all
 
 /-! ## The whole alphabet: what holds across `reset`
@@ -223,7 +223,7 @@ theorem c09_error_limit_forces_senescence (cfg : Cfg) (s : State) (ha : s.phase 
     (hlim : cfg.errThr ≤ s.errors + 1 ∨ errorRateHit (s.errors + 1) s.ops = true) :
     (step cfg s .err).st.phase = .senescent ∧ (step cfg s .err).ret = .bool false ∧
     (step cfg s .err).evs = [.change .active .senescent, .senescence .errors] := by
-  obtain ⟨ph, len, errs, ops, ren, rsn, st0, la, now⟩ := s
+  obtain ⟨ph, len, errs, ops, ren, rsn, st0, la, now, evn⟩ := s
   simp only at ha hlim; subst ha
   simp only [step, recordError, enterSenescence]
   (repeat' split) <;> simp_all
@@ -234,7 +234,7 @@ theorem c09_depletion_forces_senescence (cfg : Cfg) (s : State) (c : Nat)
     (ha : s.phase = .active ∨ s.phase = .nascent) (hd : depleted cfg (max 0 (s.length - c)) = true) :
     (step cfg s (.tick c)).st.phase = .senescent ∧ (step cfg s (.tick c)).ret = .bool false ∧
     Ev.change .active .senescent ∈ (step cfg s (.tick c)).evs := by
-  obtain ⟨ph, len, errs, ops, ren, rsn, st0, la, now⟩ := s
+  obtain ⟨ph, len, errs, ops, ren, rsn, st0, la, now, evn⟩ := s
   simp only at ha hd
   rcases ha with rfl | rfl <;> simp [step, tick, started, enterSenescence, hd]
 
@@ -257,7 +257,7 @@ theorem c09_time_limits_force_senescence (cfg : Cfg) (ops : List Op)
         o.st.phase = .active ∧ o.ret = .bool true ∧ o.evs = []) := by
   have ht := timed_run cfg ops _ (timed_init cfg)
   generalize run cfg (init cfg) ops = s at ha ht
-  obtain ⟨ph, len, errs, nops, ren, rsn, st0, la, now⟩ := s
+  obtain ⟨ph, len, errs, nops, ren, rsn, st0, la, now, evn⟩ := s
   simp only at ha; subst ha
   unfold Timed at ht
   cases st0 <;> cases la <;> simp at ht
@@ -365,7 +365,7 @@ theorem c09_pinned_tick_self_deadlock_witness :
 theorem c09_accessors_agree_with_phase (s : State) :
     (isActive s = true ↔ s.phase = .active) ∧
     (isOperational s = false ↔ (s.phase = .apoptotic ∨ s.phase = .terminated)) := by
-  obtain ⟨ph, len, errs, ops, ren, rsn, st0, la, now⟩ := s
+  obtain ⟨ph, len, errs, ops, ren, rsn, st0, la, now, evn⟩ := s
   cases ph <;> simp [isActive, isOperational]
 
 /-- A tick returns exactly what `is_active()` says afterwards, and a lifecycle that `is_operational()` denies never
@@ -373,7 +373,7 @@ theorem c09_accessors_agree_with_phase (s : State) :
 theorem c09_tick_reports_is_active (cfg : Cfg) (s : State) (c : Nat) :
     (step cfg s (.tick c)).ret = .bool (isActive (step cfg s (.tick c)).st) ∧
     (isOperational s = false → (step cfg s (.tick c)).ret = .bool false ∧ (step cfg s (.tick c)).st = s) := by
-  obtain ⟨ph, len, errs, ops, ren, rsn, st0, la, now⟩ := s
+  obtain ⟨ph, len, errs, ops, ren, rsn, st0, la, now, evn⟩ := s
   cases ph <;> simp [step, tick, started, enterSenescence, isActive, isOperational] <;> (repeat' split) <;> simp_all
 
 /-- When `get_status().time_remaining` of an ACTIVE lifecycle has run down to zero, `check_timeouts` makes it SENESCENT
@@ -383,7 +383,7 @@ theorem c09_time_remaining_zero_forces_senescence (cfg : Cfg) (s : State) (ha : 
     (h : timeRemaining cfg s = some 0) :
     (step cfg s .timeouts).st.phase = .senescent ∧ (step cfg s .timeouts).ret = .bool false ∧
     (step cfg s .timeouts).evs = [.change .active .senescent, .senescence .timeout] := by
-  obtain ⟨ph, len, errs, ops, ren, rsn, st0, la, now⟩ := s
+  obtain ⟨ph, len, errs, ops, ren, rsn, st0, la, now, evn⟩ := s
   obtain ⟨mo, et, ar, life, idle⟩ := cfg
   simp only at ha; subst ha
   cases life <;> cases st0 <;> simp [timeRemaining] at h
@@ -405,6 +405,46 @@ example : (run ⟨3, 2, true, some 900000000, none⟩ (init ⟨3, 2, true, some 
     timeRemaining ⟨3, 2, true, some 900000000, none⟩
       (run ⟨3, 2, true, some 900000000, none⟩ (init ⟨3, 2, true, some 900000000, none⟩) [.start, .adv 900000000]) = some 0 := by
   decide
+
+/-! ## The event log
+
+`State.events` is `len(self._events)`.  What `_log_event` does — one entry per call, the last `logCap` kept — and how
+many entries a new lifecycle has are MEASURED on the real class on every run (E5 probe); the nine translated methods
+carry the counter, so the agreement theorems below cover it. -/
+
+/-- the measured facts: the log keeps the last 1000 entries; a new lifecycle has one entry ("created") -/
+theorem c09_log_facts : Gen.TelomereConsts.logCap = 1000 ∧ Gen.TelomereConsts.logInit = 1 := by decide
+
+/-- The log is bounded and never empty: after every history (resets included) it holds between 1 and `logCap`
+    entries. -/
+theorem c09_event_log_bounded (cfg : Cfg) (ops : List Op) :
+    1 ≤ (run cfg (init cfg) ops).events ∧ (run cfg (init cfg) ops).events ≤ logCap := by
+  have hc : 1 ≤ logCap := by decide
+  have step_inv : ∀ (s : State) (op : Op), (1 ≤ s.events ∧ s.events ≤ logCap) →
+      (1 ≤ (step cfg s op).st.events ∧ (step cfg s op).st.events ≤ logCap) := by
+    intro s op h
+    obtain ⟨ph, len, errs, nops, ren, rsn, st0, la, now, evn⟩ := s
+    simp only at h
+    cases op <;>
+      simp only [step, start, tick, recordError, heartbeat, checkTimeouts, renew, apoptosis, terminate, reset, started,
+        enterSenescence, logged] <;> (repeat' split) <;> (try simp_all) <;> omega
+  have : ∀ (l : List Op) (s : State), (1 ≤ s.events ∧ s.events ≤ logCap) →
+      (1 ≤ (run cfg s l).events ∧ (run cfg s l).events ≤ logCap) := by
+    intro l
+    induction l with
+    | nil => intro s h; exact h
+    | cons op l ih => intro s h; exact ih _ (step_inv s op h)
+  exact this ops (init cfg) (by simp only [init, logged]; omega)
+
+/-- Every announced change is on the log: a call other than `reset` leaves at least as many new entries as it made
+    `on_phase_change` calls (up to the capacity) — `_transition_to` logs "phase_change" before it calls back. -/
+theorem c09_every_change_is_logged (cfg : Cfg) (s : State) (op : Op) (hr : op ≠ .reset) :
+    min logCap (s.events + countChanges (step cfg s op).evs) ≤ (step cfg s op).st.events := by
+  obtain ⟨ph, len, errs, nops, ren, rsn, st0, la, now, evn⟩ := s
+  cases op <;> cases ph <;>
+    simp [step, start, tick, recordError, heartbeat, checkTimeouts, renew, apoptosis, terminate, started,
+      enterSenescence, logged, countChanges, Ev.isChange, List.filter] at hr ⊢ <;> (repeat' split) <;>
+    (try simp_all [countChanges, Ev.isChange, List.filter]) <;> (try omega)
 
 /-! ## Several lifecycles alive at once, resets in between
 
@@ -520,17 +560,17 @@ translator's subset — extracted or inlined helpers, flag variable vs. direct r
 named constant sets, logging — leave them green. -/
 
 theorem c09_translation_agrees_start (cfg : Cfg) (s : State) (evs : List Ev) : Tr.start cfg s evs = stepOut cfg s evs .start := by
-  obtain ⟨ph, len, errs, ops, ren, rsn, st0, la, now⟩ := s
+  obtain ⟨ph, len, errs, ops, ren, rsn, st0, la, now, evn⟩ := s
   cases ph <;> simp [stepOut, step, start, started] <;> (repeat' split) <;> (try simp_all) <;> (try omega)
 
 theorem c09_translation_agrees_tick (cfg : Cfg) (s : State) (evs : List Ev) (c : Nat) : Tr.tick cfg s evs c = stepOut cfg s evs (.tick c) := by
-  obtain ⟨ph, len, errs, ops, ren, rsn, st0, la, now⟩ := s
+  obtain ⟨ph, len, errs, ops, ren, rsn, st0, la, now, evn⟩ := s
   cases ph <;>
     simp [stepOut, step, tick, started, enterSenescence, depleted, Int.max_def] <;> (repeat' split) <;> (try simp_all) <;>
     (try omega)
 
 theorem c09_translation_agrees_record_error (cfg : Cfg) (s : State) (evs : List Ev) : Tr.record_error cfg s evs = stepOut cfg s evs .err := by
-  obtain ⟨ph, len, errs, ops, ren, rsn, st0, la, now⟩ := s
+  obtain ⟨ph, len, errs, ops, ren, rsn, st0, la, now, evn⟩ := s
   cases ph <;>
     simp [stepOut, step, recordError, enterSenescence, errorRateHit, Gen.TelomereConsts.errorRateNum,
       Gen.TelomereConsts.errorRateDen] <;>
@@ -540,27 +580,27 @@ theorem c09_translation_agrees_heartbeat (cfg : Cfg) (s : State) (evs : List Ev)
   simp [stepOut, step, heartbeat]
 
 theorem c09_translation_agrees_check_timeouts (cfg : Cfg) (s : State) (evs : List Ev) : Tr.check_timeouts cfg s evs = stepOut cfg s evs .timeouts := by
-  obtain ⟨ph, len, errs, ops, ren, rsn, st0, la, now⟩ := s
+  obtain ⟨ph, len, errs, ops, ren, rsn, st0, la, now, evn⟩ := s
   obtain ⟨mo, et, ar, life, idle⟩ := cfg
   cases ph <;> cases life <;> cases idle <;> cases st0 <;> cases la <;>
     simp [stepOut, step, checkTimeouts, enterSenescence, limitHit] <;> (repeat' split) <;> (try simp_all) <;> (try omega)
 
 theorem c09_translation_agrees_renew (cfg : Cfg) (s : State) (evs : List Ev) (n : Option Nat) (r : Bool) :
     Tr.renew cfg s evs n r = stepOut cfg s evs (.renew n r) := by
-  obtain ⟨ph, len, errs, ops, ren, rsn, st0, la, now⟩ := s
+  obtain ⟨ph, len, errs, ops, ren, rsn, st0, la, now, evn⟩ := s
   rcases n with _ | _ | a <;> cases ph <;> cases r <;>
     simp [stepOut, step, renew, pyOr, renewAmount, Int.min_def] <;> (repeat' split) <;> (try simp_all) <;> (try omega)
 
 theorem c09_translation_agrees_trigger_apoptosis (cfg : Cfg) (s : State) (evs : List Ev) : Tr.trigger_apoptosis cfg s evs () = stepOut cfg s evs .apo := by
-  obtain ⟨ph, len, errs, ops, ren, rsn, st0, la, now⟩ := s
+  obtain ⟨ph, len, errs, ops, ren, rsn, st0, la, now, evn⟩ := s
   cases ph <;> simp [stepOut, step, apoptosis] <;> (repeat' split) <;> (try simp_all) <;> (try omega)
 
 theorem c09_translation_agrees_terminate (cfg : Cfg) (s : State) (evs : List Ev) : Tr.terminate cfg s evs = stepOut cfg s evs .term := by
-  obtain ⟨ph, len, errs, ops, ren, rsn, st0, la, now⟩ := s
+  obtain ⟨ph, len, errs, ops, ren, rsn, st0, la, now, evn⟩ := s
   cases ph <;> simp [stepOut, step, terminate] <;> (repeat' split) <;> (try simp_all) <;> (try omega)
 
 theorem c09_translation_agrees_reset (cfg : Cfg) (s : State) (evs : List Ev) : Tr.reset cfg s evs = stepOut cfg s evs .reset := by
-  obtain ⟨ph, len, errs, ops, ren, rsn, st0, la, now⟩ := s
+  obtain ⟨ph, len, errs, ops, ren, rsn, st0, la, now, evn⟩ := s
   cases ph <;> simp [stepOut, step, reset] <;> (repeat' split) <;> (try simp_all) <;> (try omega)
 
 /-! ## Non-vacuity: concrete histories meeting the hypotheses -/
